@@ -286,7 +286,7 @@ func main() {
 		Seed: *seed, Tier: *tier, Dir: *out, Rng: NewRand(*seed), Arg: *arg,
 		ops: bufio.NewWriterSize(opsF, 1<<20), impl: bufio.NewWriterSize(implF, 1<<20),
 		Stats:    &Stats{Suite: name, Counters: map[string]int{}},
-		caseKeys: map[string]bool{}, suite: su, OpTimeout: 20 * time.Second,
+		caseKeys: map[string]bool{}, suite: su, OpTimeout: 8 * time.Second,
 	}
 	c.Flags = map[string]bool{}
 	for _, a := range strings.Split(*arg, ",") {
